@@ -6,7 +6,19 @@
 #include <algorithm>
 #include "tableface.hpp"
 
+#include "inc/Verif.h"
+
 using namespace grv;
+
+namespace {
+// cursor bookkeeping events of the rule loop (hook events 3 = before, 4 = after), one NDJSON line per iteration
+FILE *g_ctl = 0; long g_ctl_left = 0; long g_c3[4];
+void ctl_sink(int ev, long a, long b, long c, long d) {
+    if (!g_ctl || g_ctl_left <= 0) return;
+    if (ev == 3) { g_c3[0] = a; g_c3[1] = b; g_c3[2] = c; g_c3[3] = d; }
+    else if (ev == 4) { fprintf(g_ctl, "{\"s\":%ld,\"hw\":%ld,\"hp\":%ld,\"lc\":%ld,\"n\":%ld,\"s2\":%ld,\"hw2\":%ld,\"lc2\":%ld,\"ml\":%ld}\n", g_c3[0], g_c3[1], g_c3[2] & 1, g_c3[2] >> 1, g_c3[3], a, b, c, d); --g_ctl_left; }
+}
+}
 
 namespace {
 // advance callback of a "hinted" font: a value that depends on the glyph id only
@@ -27,6 +39,8 @@ static uint64_t fnv(const std::string &s) { uint64_t h = 1469598103934665603ULL;
 GRV_CMD(shape) {
     if (argc < 1) return 2;
     const bool full = argc > 1 && !strcmp(argv[1], "full");
+    // grv shape <jobs> ctl <file> <max events>: additionally record the rule loop's cursor bookkeeping
+    if (argc > 3 && !strcmp(argv[1], "ctl")) { g_ctl = fopen(argv[2], "w"); g_ctl_left = atol(argv[3]); g_rule_sink = ctl_sink; graphite2::verif_rule_events = 1; }
     FILE *f = fopen(argv[0], "r"); if (!f) { perror(argv[0]); return 2; }
     std::string line; long segs = 0, nulls = 0;
     while (vj::readline(f, line)) {
@@ -94,6 +108,7 @@ GRV_CMD(shape) {
     }
     fclose(f);
     vj::W w; w.i("segments", segs).i("null", nulls);
+    if (g_ctl) { fclose(g_ctl); g_ctl = 0; g_rule_sink = 0; graphite2::verif_rule_events = 0; }
     report_summary(w.done().c_str());
     return 0;
 }
